@@ -1,6 +1,6 @@
 import FxVerif.Proofs.C13Fits
 import FxVerif.Model.C07
-import FxVerif.Proofs.C07Gov
+import FxVerif.Proofs.C07GovFit
 /-!
 # C07 — block processing never halts: the crosschain `EndBlocker` half
 
@@ -110,6 +110,13 @@ theorem gov_tally_total (i : TallyIn) (hi : InOk i) (hd : DeductionsFit i) : ∃
   tally_total_of_tail tally_tail_code_facts i hi hd
 
 open FxVerif.Model.C07Gov FxVerif.Proofs.C07Gov in
+/-- … with the staking hypothesis stated on the tally INPUT only (`DelegationsFit`: for each bonded validator the shares
+of its voting delegators add up to at most its delegator shares — a validator's shares ARE the sum of its delegations'
+shares).  The harness evaluates `InOk` / `DelegationsFit` on the real staking state of every tally it drives. -/
+theorem gov_tally_total_input (i : TallyIn) (hi : InOk i) (hd : DelegationsFit i) : ∃ o, tally i = .ok o :=
+  gov_tally_total i hi (deductionsFit_of_input i hd)
+
+open FxVerif.Model.C07Gov FxVerif.Proofs.C07Gov in
 /-- with no voters at all the tally completes whatever the staking state is (not even `InOk` is needed for validators
 that did not vote) -/
 theorem gov_tally_total_no_votes (i : TallyIn) (hv : i.voters = []) (hn : ∀ v ∈ i.vals, v.vote = []) :
@@ -145,6 +152,17 @@ def iEx (a b : Opt) : TallyIn :=
   { bonded := 200, quorum := 4 * 10 ^ 17, vetoThr := 334 * 10 ^ 15, thr := 5 * 10 ^ 17, burnQ := false, burnV := true,
     vals := [vEx a, vEx b],
     voters := [{ opts := [(a, oneE)], dels := [(0, 100 * oneE)] }, { opts := [(b, oneE)], dels := [(1, 100 * oneE)] }] }
+example : InOk (iEx .abstain .abstain) ∧ DelegationsFit (iEx .abstain .abstain) := by
+  refine ⟨⟨?_, ?_⟩, ?_, ?_⟩
+  · intro v hv; simp [iEx, vEx] at hv; subst hv; refine ⟨by decide, by decide, ?_, by decide⟩; intro e he; simp at he; subst he; decide
+  · intro vt hvt; simp [iEx] at hvt
+    rcases hvt with h | h <;> subst h <;> refine ⟨⟨?_, by decide⟩, ?_⟩ <;> intro e he <;> simp at he <;> subst he <;> decide
+  · intro v hv; simp [iEx, vEx] at hv; subst hv; rfl
+  · intro j v hj
+    match j with
+    | 0 => simp [iEx, vEx] at hj; subst hj; decide
+    | 1 => simp [iEx, vEx] at hj; subst hj; decide
+    | n + 2 => simp [iEx] at hj
 example : (match tally (iEx .abstain .abstain) with | .ok o => some (o.passes, o.burn, o.res.abstain) | .error _ => none) =
     some (false, false, 200 * oneE) := by decide
 example : (match tally (iEx .yes .abstain) with | .ok o => some (o.passes, o.burn) | .error _ => none) = some (true, false) := by decide
